@@ -40,7 +40,11 @@ pub mod flate2 {
     use crate::io;
     pub struct Compression { pub level: u32 }
     impl Compression { pub fn new(level: u32) -> (r: Compression) ensures r.level == level { Compression { level } } }
-    /// flate2::write::GzEncoder<W>: an opaque compressor around W (what it emits is flate2's business: C09 is not claimed).
+    /// flate2::write::GzEncoder<W>: an opaque compressor around W.  `write_rel` / `flush_rel` name what the real methods do.
+    /// ASSUMED flate2 contract (C09 rests on it; cross-checked natively, bounded): fed `write`s (each accepted in full or
+    /// as an honestly counted prefix by W) and `flush`es, then dropped, the encoder has handed W - through W's own
+    /// `write` / `flush`, retrying partial writes - exactly one well-formed gzip member of the accepted bytes; after a
+    /// successful `flush` (a sync flush followed by W::flush) W holds enough to decode everything accepted before it.
     pub mod write {
         use vstd::prelude::*;
         #[verifier::external_body]
@@ -49,12 +53,14 @@ pub mod flate2 {
         impl<W> GzEncoder<W> {
             pub uninterp spec fn inner(&self) -> W;
             pub uninterp spec fn level(&self) -> u32;
+            pub uninterp spec fn write_rel(&self, buf: Seq<u8>, r: crate::io::Result<usize>, after: Self) -> bool;
+            pub uninterp spec fn flush_rel(&self, r: crate::io::Result<()>, after: Self) -> bool;
             #[verifier::external_body]
             pub fn get_mut(&mut self) -> (r: &mut W) ensures *r == old(self).inner(), final(self).inner() == *final(r), final(self).level() == old(self).level() { unimplemented!() }
             #[verifier::external_body]
-            pub fn write(&mut self, buf: &[u8]) -> (r: crate::io::Result<usize>) ensures final(self).level() == old(self).level() { unimplemented!() }
+            pub fn write(&mut self, buf: &[u8]) -> (r: crate::io::Result<usize>) ensures final(self).level() == old(self).level(), old(self).write_rel(buf@, r, *final(self)) { unimplemented!() }
             #[verifier::external_body]
-            pub fn flush(&mut self) -> (r: crate::io::Result<()>) ensures final(self).level() == old(self).level() { unimplemented!() }
+            pub fn flush(&mut self) -> (r: crate::io::Result<()>) ensures final(self).level() == old(self).level(), old(self).flush_rel(r, *final(self)) { unimplemented!() }
         }
     }
     pub struct GzBuilder;
